@@ -155,6 +155,7 @@ class FnView(object):
     target): a reference to such a name can be read as its definition."""
     if getattr(self, '_single', None) is None:
       count, val = {}, {}
+      mutated = set()
       bad = set(self.fi.params)
       for x in walk_local(self.fi.node):
         if isinstance(x, ast.Assign):
@@ -162,9 +163,9 @@ class FnView(object):
             if isinstance(t, ast.Name):
               count[t.id] = count.get(t.id, 0) + 1
               val[t.id] = x.value
-            else:
+            elif isinstance(t, (ast.Tuple, ast.List, ast.Starred)):
               for e in ast.walk(t):
-                if isinstance(e, ast.Name):
+                if isinstance(e, ast.Name) and isinstance(e.ctx, ast.Store):
                   bad.add(e.id)
         elif isinstance(x, (ast.AugAssign, ast.AnnAssign)):
           for e in ast.walk(x.target):
@@ -188,7 +189,7 @@ class FnView(object):
             isinstance(x.func.value, ast.Name) and x.func.attr in (
                 'append', 'extend', 'add', 'update', 'insert', 'pop', 'remove', 'discard',
                 'clear', 'setdefault', 'sort', 'reverse', 'appendleft', 'popleft'):
-          bad.add(x.func.value.id)      # grown in place: not its definition any more
+          mutated.add(x.func.value.id)  # grown in place: not its definition any more
       for x in walk_local(self.fi.node):
         tg = []
         if isinstance(x, ast.Assign):
@@ -197,7 +198,14 @@ class FnView(object):
           tg = [x.target] if isinstance(x, ast.AugAssign) else x.targets
         for t in tg:
           if isinstance(t, (ast.Subscript, ast.Attribute)) and isinstance(t.value, ast.Name):
-            bad.add(t.value.id)
+            mutated.add(t.value.id)
+      # a local that merely names an existing object (x = self.a.b) still is
+      # that object after it was written through; a container built here
+      # (x = [], x = dict(..)) is not its initial value any more
+      for k in mutated:
+        v_ = val.get(k)
+        if not isinstance(v_, (ast.Attribute, ast.Name)):
+          bad.add(k)
       self._single = {k: v for k, v in val.items() if count[k] == 1 and k not in bad}
     return self._single
 
